@@ -139,9 +139,13 @@ GOOD = '({1,2,3,4,5,({"a","b",(["k":({6,7,}),]),}),"z",})'
 def with_fault(plan, k, info=None):
     q = plan.copy()
     j = int(q.opts()['c16_cycle'])
-    if k < 10000:       # crash point of the second save
+    if k < 5000:        # crash point of the second save
         q.cycles[j] = ['fsarm %d' % k] + [s for s in q.cycles[j] if parse_step(s)[0] != 'fsarm']
         q.opt('c16_fault', 'crash:%d' % k)
+        return q
+    if k < 10000:       # a transient error: only mutating file call k-5000 of the second save fails
+        q.cycles[j] = ['fsarm %d once' % (k - 5000)] + [s for s in q.cycles[j] if parse_step(s)[0] != 'fsarm']
+        q.opt('c16_fault', 'once:%d' % (k - 5000))
         return q
     if info is None: return q
     if k < 20000:       # damaged save file
@@ -187,6 +191,7 @@ def base_info(plan, res):
 def points(plan, res, tier, rng):
     info = base_info(plan, res)
     pts = list(range(info['mut_calls'] + 1)) if info['textA'] and info['textB'] else []
+    pts += [5000 + x for x in range(info['mut_calls'])] if info['textA'] and info['textB'] else []
     nB = len(info['textB']) // 2
     ndmg = min(nB, 300) + (40 if tier == 'quick' else 200)
     if tier == 'quick' and ndmg > 120:
@@ -243,7 +248,7 @@ def check_point(plan, res, info):
     v = generic_crash_violations(PROP, res)
     if v: return v
     f = plan.opts().get('c16_fault', '')
-    if f.startswith('crash:'):
+    if f.startswith(('crash:', 'once:')):
         stops = res.of('fs_stop')
         files = _recs(res, 'FILE')
         if len(files) < 2 or not info['textA'] or not info['textB']: return v
@@ -255,8 +260,8 @@ def check_point(plan, res, info):
         is_old = after == before      # byte-identical to what this very run had written before
         is_new = after != '-' and sorted(bytes.fromhex(after)) == sorted(bytes.fromhex(info['textB']))
         if not is_old and not is_new:
-            v.append(Violation(PROP, 'atomicity', 'save interrupted at mutating file call %s left the save file neither as the previous save nor as the complete new one (%d bytes; old %d, new %d)' %
-                               (f[6:], len(after) // 2 if after != '-' else -1, len(info['textA']) // 2, len(info['textB']) // 2), PROP + '/atomicity/save-file-torn'))
+            v.append(Violation(PROP, 'atomicity', 'save with a failure at mutating file call %s left the save file neither as the previous save nor as the complete new one (%d bytes; old %d, new %d)' %
+                               (f.split(':', 1)[1], len(after) // 2 if after != '-' else -1, len(info['textA']) // 2, len(info['textB']) // 2), PROP + '/atomicity/save-file-torn'))
             return v
         if is_new and not is_old:
             for r in _recs(res, 'RTG'):
@@ -279,11 +284,11 @@ def check_point(plan, res, info):
 
 def summarize_point(plan, res, info):
     f = plan.opts().get('c16_fault', '')
-    fired = bool(res.of('fs_stop')) or not f.startswith('crash:')
+    fired = bool(res.of('fs_stop')) or not f.startswith(('crash:', 'once:'))
     kind = f.split(':')[0]
     out = 'x'
     r = _recs(res, 'RESTD') + _recs(res, 'RV')
     if r: out = r[-1][:24]
     return {'nontrivial': fired, 'abstract': hashlib.sha256((str(plan.opts().get('c16_nvals')) + plan.header[-1] + f + out).encode()).hexdigest()[:16] if fired else '',
-            'probes': {'crash_points': int(kind == 'crash' and fired), 'damaged_files': int(kind == 'file'), 'damaged_values': int(kind == 'value'),
+            'probes': {'crash_points': int(kind == 'crash' and fired), 'transient_write_errors': int(kind == 'once' and fired), 'damaged_files': int(kind == 'file'), 'damaged_values': int(kind == 'value'),
                        'restore_raised_error': int('err=1' in out or out.startswith('RV err'))}}
